@@ -280,6 +280,8 @@ def check(ctx):
                ok_ret, detail=short(kw(rt, "model_state", 0) or ()) if rt else "")
 
     # ---- shared mechanisms: the neighbour's rules run as obligations of this property
+    ctx.include("C08", "C09.R5", only=['C08.R1'])
+    ctx.include("C07", "C09.R5", only=['C07.R3'])
     ctx.include("C03", "C09.R5", only=None)
     ctx.include("C01", "C09.R5", only=None)
-    ctx.rule("R5", "shared mechanisms, run as obligations of this property: both state-passing interfaces write back through a full update (C03); derived quantities in the state are the model's cached nodes (C01).")
+    ctx.rule("R5", "shared mechanisms, run as obligations of this property: what is recorded is the state after all kernels ran (C08.R1); the state carried from one iteration (and chunk) to the next is the one the kernels left (C07.R3); both state-passing interfaces write back through a full update (C03); derived quantities in the state are the model's cached nodes (C01).")
